@@ -67,6 +67,9 @@ func run(e *vlib.Env) vlib.Result {
 		res.Count("exh_programs", hi-lo)
 		return res
 	}
+	if (e.Idx-nb)%8 == 7 {
+		return runConcurrentRegistration(e)
+	}
 	r := e.R.Fork()
 	progs := make([]*program, randProgsPerCase)
 	var texts []string
